@@ -67,6 +67,11 @@ Proof. induction t as [s|t IH|k v IHk IHv|t IH|l IHl|t IH|t IH|s] using tstruct_
   - cbn [ptoks]. apply IH; assumption.
   - apply rep_pleaf. exact Hl. Qed.
 
+(* the prefixed type as a whole type: consumed by ptype up to any stop token *)
+Theorem prefixed_ptype g t rest : leaves_ok g t = true -> tdepth t < TYF -> stop rest ->
+  exists ty, ptype (ptoks g t ++ rest) = Some (ty, rest) /\ ty_ok ty = true.
+Proof. intros Hl Hd Hs. unfold ptype. change TYF with (S 63) in *. apply rep_parse; [|exact Hs]. apply ptoks_rep; [exact Hl|lia]. Qed.
+
 Lemma pleaf_simple n : forallb simple_tk (pleaf n) = true.
 Proof. unfold pleaf. destruct (name_in n atp_globals); reflexivity. Qed.
 Lemma ptoks_simple g : forall t, forallb simple_tk (ptoks g t) = true.
